@@ -24,7 +24,7 @@ def cases(tier, seed):
     if tier == "quick":
         pairs, wl, reps = 4000, [1, 4], 1
     else:
-        pairs, wl, reps = 20000, [1, 2, 3, 5, 8, 16], 3
+        pairs, wl, reps = 8000, [1, 2, 3, 5, 8, 16], 3
     for rep in range(reps):
         for pi, pol in enumerate(POLICIES):
             ws = wl + [rnd.choice([2, 3, 6, 8, 12, 16])]
